@@ -32,7 +32,7 @@ def redescribe(rng, ant, mode=None):
     if mode in ('split', 'all'):
         out = []
         for w in ws:
-            if w['nseg'] >= 2 and rng.random() < 0.6:
+            if w['nseg'] >= 2 and rng.random() < 0.6 and not w.get('segtype'):      # a tapered wire is one object: its parts would be tapered anew
                 k = rng.randint(1, w['nseg'] - 1)
                 p0, p1 = np.array(w['p0']), np.array(w['p1'])
                 mid = p0 + (p1 - p0) * (k / w['nseg'])
@@ -46,6 +46,8 @@ def redescribe(rng, ant, mode=None):
         for w in ws:
             if rng.random() < 0.5:
                 w['p0'], w['p1'] = w['p1'], w['p0']
+                if w.get('segtype') in (1, 2):
+                    w['segtype'] = 3 - w['segtype']          # the same conductor: the taper stays at the same physical end
                 ops.append('rev')
     if mode in ('order', 'all'):
         perm = list(range(len(ws)))
@@ -125,6 +127,14 @@ def pick_sources(rng, m0, m1, q):
     r0, B0 = half_table(m0, q)
     r1, B1 = half_table(m1, q)
     if set(r0) != set(r1):
+        # the same conductors must give the same real half segments (node, far end) whatever the description; a second
+        # quantisation rules out a coordinate that sits on a rounding boundary
+        ra, _ = half_table(m0, q * 1.37)
+        rb, _ = half_table(m1, q * 1.37)
+        if set(ra) != set(rb):
+            only0 = sorted(set(r0) - set(r1))[:1]
+            return ('the two descriptions of the same conductors have different half segments: %d vs %d, e.g. (pulse point, far end) = %r in one only'
+                    % (len(r0), len(r1), [tuple(round(c * q, 6) for c in kk) for kk in only0[0]] if only0 else None))
         return None
     B1 = B1[[r1[k] for k in sorted(r0, key=lambda k: r0[k])]]
     for k in cand[:rng.randint(1, min(3, len(cand)))]:
@@ -145,6 +155,8 @@ def property_on_impl(ant, ant2, seed):
     ss = pick_sources(rng, g0, g1, q)
     if ss is None:
         return None, None
+    if isinstance(ss, str):
+        return ss, None
     m0, m1 = solve(ant, ss[0]), solve(ant2, ss[1])
     cn = max(antgen.cond(m0), antgen.cond(m1))
     if cn > 1e5:
